@@ -27,6 +27,20 @@ ASSUMPTIONS = [
     'the tree-level model has one kind of binary leaf (bytearray reads as bytes); mutability / hashability of '
     'bytearray is in the heap-level model only (Cell.mbytes)',
     'known open finding F9: classes whose constructor does not accept one iterable are rebuilt wrongly',
+    'heap model: every object has a permanent address for the duration of a call. Justified, not assumed: '
+    'Props/C09.lean memo_keeps_alive_sound (counter-model PypyrModel/FmtFree.lean with a free list: with the memo '
+    'keeping a reference to every object it has an entry for - /repo 2cfa9de - no address is freed while the memo '
+    'lives) and memo_reuse_breaks_soundness / memo_reuse_wrong_result (without it the memo is unsound); the stream '
+    '`lazy` exercises containers whose members die during the traversal on the real code',
+    'three models, their relation: heap-level fmtH reads as tree-level Pypyr.fmtIter for any sound memo (theorem '
+    'fmtH_memo_sound / fmtH_simulates_tree, hypotheses: leaf cells hold non-string leaves, the context objects are '
+    'readable; the deepVal form needs the heap ordered bottom-up = the driver`s heapOk); the tree-level claims are '
+    'proved for BOTH tree models (Pypyr.fmtIter: simple grammar, structural key equality, no hash check; '
+    'Format.fmtIter: full grammar, Python key equality, unhashable-key TypeError); that the two tree models agree on '
+    'the simple grammar where no keys collide numerically is VALIDATED (c08 `basic_agrees`, c09 `faithful:agrees`), '
+    'not proved',
+    'faithful tree model vs implementation: skipped where the tree value cannot say it (frozenset / bytearray as key '
+    'or member, EqOpaque objects that are == by group, which of two ==-equal set members survives)',
 ]
 
 F9_SIG = {'site': '_get_formatted_iterable', 'container': 'ctor-not-iterable-compatible'}
@@ -85,8 +99,13 @@ def check_cases(env, res, cases):
         tree_reqs.append(('heap.fmtTree', {'ctx': {'d': [[k, I.cells_to_wire(cells, r)] for k, r in ctxpairs]},
                                            'v': I.cells_to_wire(cells, root)}))
     tree_out = iter(drv.ask_many([t for t in tree_reqs if t is not None]))
-    for (case, cells, ctxpairs, root, objs), (iobs, _), hout, treq in zip(prepared, impl, heap_out, tree_reqs):
+    # the FAITHFUL tree model (Format.fmtVal: Python key equality, TypeError for an unhashable formatted key /
+    # member, the whole expression grammar) on the same tree reading
+    faith_out = drv.ask_many([('format.fmt', t[1]) for t in tree_reqs])
+    for (case, cells, ctxpairs, root, objs), (iobs, _), hout, treq, fout in zip(prepared, impl, heap_out, tree_reqs,
+                                                                                 faith_out):
         tout = next(tree_out) if treq is not None else None
+        check_faithful(res, case, cells, iobs, fout)
         stream = case['stream'].split(':')[0]
         res.count('stream:' + stream)
         if case.get('twins') or case['stream'].startswith('directed:twins'):
@@ -151,6 +170,39 @@ def check_cases(env, res, cases):
                          'Lean braceFree disagrees with the monitor predicate')
 
 
+def check_faithful(res, case, cells, iobs, fout):
+    """implementation vs the faithful tree model (Props/C09.lean, section "faithful": the tree-level theorems
+    hold for it too). Classes and identities are erased on this side; what it adds to the basic tree model is
+    Python key equality and the unhashable-key TypeError."""
+    if isinstance(fout, common.Reject):
+        res.count('faithful-rejected:' + str(fout)[:40])
+        return
+    frozen = any('set' in c and c['set'][0] == 1 for c in cells)
+    mutable_bytes = any('mbytes' in c for c in cells)
+    if 'ok' in fout:
+        fobs = {'ok': I.canon_wire(fout['ok'])}
+    else:
+        n = fout['err']['name']
+        fobs = {'err': 'RecursionError' if n == 'OutOfFuel' else n}
+    iobs_f = {'ok': iobs['ok']['val']} if 'ok' in iobs else {'err': iobs['err']}
+    if fobs == iobs_f:
+        res.count('faithful:agrees:' + ('ok' if 'ok' in fobs else fobs['err']))
+        return
+    unhash_m = 'err' in fout and 'unhashable' in fout['err'].get('msg', '')
+    unhash_i = 'err' in iobs and 'unhashable' in iobs.get('msg', '')
+    if frozen and unhash_m and not unhash_i:
+        res.count('faithful-out-of-domain:frozenset-as-key-or-member (the tree value has one kind of set)')
+    elif mutable_bytes and unhash_i and not unhash_m:
+        res.count('faithful-out-of-domain:bytearray-as-key-or-member (the tree value has one kind of binary leaf)')
+    elif multi_member_set(cells) and (('err' in fobs and 'err' in iobs_f) or
+                                      ('ok' in fobs and 'ok' in iobs_f and I.py_equal_wire(fobs['ok'], iobs_f['ok']))):
+        res.count('faithful:set-order-dependent')
+    elif case.get('twins') and 'ok' in fobs and 'ok' in iobs_f:
+        res.count('faithful-out-of-domain:EqOpaque objects are == by group, obj ids in the model by identity')
+    else:
+        res.mismatch(case, fobs, iobs_f, 'faithful tree level: Format.fmtVal differs from get_formatted_value')
+
+
 def check_f9(env, res, names=None):
     """Classes whose constructor is not iterable-compatible: monitors only (no model)."""
     from pypyr.context import Context
@@ -178,8 +230,68 @@ def check_py(env, res, cases):
             res.violation(case, detail, signature={'monitor': mon, 'stream': 'implonly-py'}, impl=obs)
 
 
+def lazy_request(case):
+    """the plain container with the same members, placed like the lazy one, for the tree-level model"""
+    plain = I.lazy_model_value(case)
+    place = case.get('place', 'top')
+    ctx = [[k, w] for k, w in case['ctx']]
+    if place in ('ctx', 'ctx-rf'):
+        ctx = ctx + [['lz', plain]]
+    v = {'top': plain, 'member': [plain, 'tail'], 'ctx': '{lz}', 'ctx-rf': '{lz:rf}'}[place]
+    return 'heap.fmtTree', {'ctx': {'d': ctx}, 'v': v}
+
+
+def check_lazy(env, res, cases):
+    """LAZILY MATERIALISING containers (iteration creates the members; impl_c09.LazySeq / LazyGenSeq / LazyMap /
+    LazySet): monitor "each member is formatted as itself" on three entry points + the tree-level model on the
+    plain container with the same members (the class is erased on the model side)."""
+    outs = env.driver.ask_many([lazy_request(c) for c in cases])
+    for case, tout in zip(cases, outs):
+        res.case(case)
+        res.count('stream:lazy')
+        res.count(f'lazy:{case["shape"]}:{case.get("place", "top")}')
+        res.count(f'lazy:members={min(len(case["items"]), 12)}')
+        special = any(I.has_special(common.dec(w)) for _, w in case['ctx'])
+        obs = None
+        for entry in ('context', 'formatter') if special else ('context', 'formatter', 'plain'):
+            o, fails = I.run_lazy(case, entry=entry)
+            for mon, detail in fails:
+                res.violation(case, detail if entry == 'context' else f'[RecursiveFormatter called directly: {entry}] {detail}',
+                              signature={'monitor': mon, 'stream': 'lazy', 'container': case['shape']}, impl=o)
+            if obs is None:
+                obs = o
+            elif ({'err': o['err']} if 'err' in o else o) != ({'err': obs['err']} if 'err' in obs else obs):
+                res.mismatch(case, obs, o, f'entry points disagree on a lazily materialising container ({entry})')
+        res.count('lazy:outcome:' + ('ok' if 'ok' in obs else obs['err']))
+        if isinstance(tout, common.Reject):
+            res.count('lazy:tree-rejected:' + str(tout)[:40])
+            continue
+        if 'err' in obs and obs['err'] == 'TypeError' and 'unhashable' in obs.get('msg', ''):
+            res.count('tree-out-of-domain:unhashable-key (Fmt.lean has no hash check)')
+            continue
+        place = case.get('place', 'top')
+        if 'ok' in tout:
+            w = tout['ok']
+            if place == 'member':
+                w = w[0]
+            tobs = {'ok': I.canon_wire(w)}
+        else:
+            tobs = {'err': tout['err']['name']}
+        iobs = {'err': obs['err']} if 'err' in obs else obs
+        if 'err' in tobs and 'err' in iobs and tobs != iobs and case['shape'] == 'set':
+            continue                                   # which member fails first is not an observable
+        if tobs != iobs:
+            if 'ok' in tobs and 'ok' in iobs and case['shape'] in ('set', 'map') and I.py_equal_wire(tobs['ok'], iobs['ok']):
+                # True == 1 == 1.0 as set members / dict keys: the basic tree model compares structurally
+                res.count('lazy:numerically-equal-keys (basic tree model compares keys structurally)')
+                continue
+            res.mismatch(case, tobs, iobs, 'lazily materialising container: members differ from fmtVal of the plain '
+                                           'container with the same members')
+
+
 def run(env, res):
-    res.rule = ('every heap case through three entry points (Context.get_formatted_value vs models; '
+    res.rule = ('every heap case through three entry points (Context.get_formatted_value vs THREE models: heap-level '
+                'fmtHeap, tree-level Pypyr.fmtVal, faithful tree-level Format.fmtVal; '
                 'RecursiveFormatter(special_types=...).vformat and plain RecursiveFormatter().vformat: monitors + '
                 'agreement); leaves incl. bytes and bytearray (own, shared, context-owned, target of {k}/{k:ff}/{k:rf}); '
                 'directed heaps (each container class x leaf kind x expression kind, shared sub-objects, the same '
@@ -189,8 +301,14 @@ def run(env, res):
                 '0, 0.0, False, 2, 2.0, EqOpaque objects that are == but not `is`, sometimes the same object twice); '
                 'non-trivial = distinct case that reached both sides; F9 classes: monitors only; stream implonly-py '
                 '(IMPLEMENTATION-ONLY, no model side): values holding arbitrary-Python !py strings with := at top '
-                'level / in comprehensions / in lambdas, binding new names, context keys and mutable context objects')
+                'level / in comprehensions / in lambdas, binding new names, context keys and mutable context objects; '
+                'stream lazy: LAZILY MATERIALISING containers (custom Sequence / generator-Sequence / Mapping / Set whose '
+                'iteration creates fresh equal-content members, 0-16 members: strings with expressions, fresh tuples / lists / '
+                'dicts of them, leaves) at top level, inside a list, as the target of {k} and {k:rf}: monitor "each member '
+                'is formatted as itself" (the id-keyed memo must not confuse a dead temporary with the next one) + tree model')
     check_f9(env, res)
+    check_lazy(env, res, I.lazy_directed_cases())
+    check_lazy(env, res, [I.random_lazy_case(env.rng) for _ in range(env.n(400, 12000))])
     cases = I.directed_cases()
     cases += [{'stream': 'yaml', 'yaml': y} for y in I.YAML_DIRECTED]
     check_cases(env, res, cases)
@@ -214,10 +332,14 @@ def run(env, res):
 
 
 def replay(env, res, case):
+    if 'first_diverging_case' in case and case['first_diverging_case']:
+        case = case['first_diverging_case']          # a no-failing-input-found file: its first diverging case
     case = case.get('case', case)
     if case.get('stream') == 'f9':
         check_f9(env, res, names=[case['cls']])
     elif case.get('stream') == 'implonly-py':
         check_py(env, res, [case])
+    elif str(case.get('stream', '')).startswith('lazy'):
+        check_lazy(env, res, [case])
     else:
         check_cases(env, res, [case])
